@@ -4,6 +4,8 @@ import Mouette.Model.Border
 import Mouette.Model.BorderSpec
 import Mouette.Model.Features
 import Mouette.Generated.C15Thresholds
+import Mouette.Model.FeatRuns
+import Mouette.Generated.C15Run
 /-
 Protocol front-end for C15.
   `b <nv> <nf> (<len> v…)* <nstarts> s…`
@@ -11,8 +13,12 @@ Protocol front-end for C15.
       a cycle is `<k v…> ; <k e…>`; canonical cycles are rotated (direction kept) so that the smallest
       vertex comes first and sorted; the polyline is `<#vertices> ; <k a b …>` = its edges mapped back
       to surface vertex pairs, sorted.
-  `f <nv> <nf> (<len> v…)* <only_border> <nE> (<hard> <d> <q>)* <nv> (<x>|N)*`
-      per canonical edge: hard flag and `(d,q)` of Model/Features.lean; per vertex `x = angle·order/2π`.
+  `f <nv> <nf> (<len> v…)* <nruns> (<same_detector> <only_border> <nE> (<hard> <d> <q>)*)* <nv> (<x>|N)*`
+      a HISTORY of detector runs on one mesh object (the last one is the run observed; earlier ones were made
+      with the same detector object or with another one); per run and canonical edge: hard flag and `(d,q)` of
+      Model/Features.lean; per vertex `x = angle·order/2π` (last run).  The model threads the mesh's `feature`
+      attribute and the detector's containers through the runs (Model/FeatRuns.lean) with the reset flags
+      translated from the source (Generated/C15Run.lean).
       reply  `<feature edges> ; <feature vertices> ; <degrees> ; <local edges per vertex, as sorted edge
       ids, `/`-separated> ; <corner per vertex>`
 -/
@@ -62,24 +68,35 @@ def edgeIn : P (Bool × Rat × Rat) := do
   let q ← rat
   pure (h, d, q)
 
-def features (nv : Nat) (faces : Faces) (onlyBorder : Bool) (ein : List (Bool × Rat × Rat))
+/-- one run of the history: was it made with the final detector object, `only_border`, per-edge inputs -/
+def runIn : P (Bool × Bool × List (Bool × Rat × Rat)) := do
+  let sd ← bool
+  let ob ← bool
+  let ein ← listOf edgeIn
+  pure (sd, ob, ein)
+
+def features (nv : Nat) (faces : Faces) (runs : List (Bool × Bool × List (Bool × Rat × Rat)))
     (xs : List (Option Rat)) : String :=
   let S := build nv faces true
   let th := Mouette.Generated.C15.thresholds
-  let es : List EdgeInfo := (S.edges.zip ein).map fun (ab, h, d, q) =>
+  let fl := Mouette.Generated.C15.runFlags
+  let mk (ein : List (Bool × Rat × Rat)) : List EdgeInfo := (S.edges.zip ein).map fun (ab, h, d, q) =>
     let tf := edgeToFaces S ab.1 ab.2
     { a := ab.1, b := ab.2, t1 := tf.1, t2 := tf.2, border := isEdgeOnBorder S ab.1 ab.2, hard := h, d := d, q := q }
-  let fe := featureEdges th onlyBorder es
-  let fv := featureVertices nv es fe
-  let deg := degrees es fe
+  let hist := runs.map fun (sd, ob, ein) => (sd, ({ onlyBorder := ob, es := mk ein } : RunInput))
+  -- the state after all the runs, on a mesh and a detector that were fresh before the first one
+  let st := runHistory fl th nv RunState.fresh hist
+  let flags := st.featE.getD []
+  let fe := sortNat st.det.fe
+  let fv := sortNat st.det.fv
   let loc := fv.map fun v =>
     let v2e := (vertexToEdges S v).filterMap id
-    let idx := localFeat fe v2e
+    let idx := localFeat flags v2e
     fmtNats (sortNat (idx.map fun i => v2e.getD i 0))
   let cor := fv.map fun v => match xs.getD v none with
     | none => "N"
     | some x => toString (cornerOf x)
-  s!"{fmtNats fe} ; {fmtNats fv} ; {fmtNats (fv.map (degreeOf deg))} ; {" / ".intercalate loc} ; {" ".intercalate cor}"
+  s!"{fmtNats fe} ; {fmtNats fv} ; {fmtNats (fv.map (degreeOf st.det.deg))} ; {" / ".intercalate loc} ; {" ".intercalate cor}"
 
 def handle (ts : List String) : Option String :=
   match ts with
@@ -87,10 +104,10 @@ def handle (ts : List String) : Option String :=
       let (nv, faces, starts) ← runP (do let nv ← nat; let f ← listOf (listOf nat); let s ← listOf nat; pure (nv, f, s)) r
       pure (border nv faces starts)
   | "f" :: r => do
-      let (nv, faces, ob, ein, xs) ← runP (do
-        let nv ← nat; let f ← listOf (listOf nat); let ob ← bool
-        let ein ← listOf edgeIn; let xs ← listOf optRat; pure (nv, f, ob, ein, xs)) r
-      pure (features nv faces ob ein xs)
+      let (nv, faces, runs, xs) ← runP (do
+        let nv ← nat; let f ← listOf (listOf nat)
+        let runs ← listOf runIn; let xs ← listOf optRat; pure (nv, f, runs, xs)) r
+      pure (features nv faces runs xs)
   | _ => none
 
 end Mouette.DriveC15
